@@ -127,7 +127,7 @@ def divisors_of_xn1(n):
     return sorted(out)
 
 
-def catalogue(tier, rng, families=None, max_n=64, long_bch=False):
+def catalogue(tier, rng, families=None, max_n=64, long_bch=False, rm5=False, all_divisors=False):
     from kaira.models.fec import encoders as E
     quick = tier == "quick"
     cat = []
@@ -182,9 +182,11 @@ def catalogue(tier, rng, families=None, max_n=64, long_bch=False):
     for k in (range(1, 13) if not quick else (1, 2, 4, 7, 11)):
         add(Entry("SPC(%d)" % k, "spc", (k,), (lambda k=k: E.SingleParityCheckCodeEncoder(k)), dexact=True, component="SingleParityCheckCodeEncoder"))
     # --- Reed-Muller
-    for m in range(1, (5 if quick else 7)):
+    for m in range(1, (6 if quick else 7)):
         for r in range(0, m):
-            if 2 ** m > max_n:
+            if quick and m == 5 and not (rm5 and r in (1, 2)):
+                continue        # quick tier: m <= 4, and with rm5 the two largest codes of length 32 whose codebook can still be enumerated
+            if 2 ** m > max_n + 1:       # a bound of 31 (the cyclic lengths) still admits the Reed-Muller codes of length 32
                 continue
             from math import comb
             if sum(comb(m, i) for i in range(r + 1)) > 16:
@@ -200,7 +202,8 @@ def catalogue(tier, rng, families=None, max_n=64, long_bch=False):
     for n in ((7, 9, 15) if quick else range(3, 22)):
         divs = divisors_of_xn1(n)
         if quick and len(divs) > 6:
-            divs = rng.sample(divs, 6)
+            some = rng.sample(divs, 6)
+            divs = some + [g for g in divs if g not in some] if all_divisors else some      # the sampled ones first: they carry the extra layouts
         for gi, g in enumerate(divs):
             kk = n - (g.bit_length() - 1)
             infos = [("left", "left"), ("right", "right")]
@@ -397,7 +400,7 @@ def advertise_event(entry, enc, tid, enum_k):
     if G.shape[1] == n and k > enum_k:
         # sensor for the MacWilliams route: the weight distribution of the dual of the row space of the PUBLISHED generator matrix
         dualB = dual_weight_distribution([sum(int(b) << j for j, b in enumerate(r)) for r in (G.to(torch.int64) % 2).tolist()], n)
-    return {"ev": "Advertise", "dualB": dualB, "tid": tid, "family": entry.family if entry.family not in ("cyclic", "cyclic_named", "linear", "systematic", "ldpc") else "other",
+    return {"ev": "Advertise", "dualB": dualB, "dual_dim": (sum(dualB).bit_length() - 1 if dualB else -1), "tid": tid, "family": entry.family if entry.family not in ("cyclic", "cyclic_named", "linear", "systematic", "ldpc") else "other",
             "params": list(entry.params) if entry.family in ("hamming", "golay", "repetition", "spc", "rm", "bch", "rs") else [0],
             "rate6": int(round(float(enc.code_rate) * 1e6)), "d": d, "dexact": bool(entry.dexact and d > 0), "enum_k": enum_k,
             "cyclic": cyc, "gpoly": gp, "perfect": bool(entry.perfect), "t": t}
